@@ -180,6 +180,23 @@ class RateModel:
                             if isinstance(t, ast.Subscript) and isinstance(t.value, ast.Name):
                                 count[t.value.id] = count.get(t.value.id, 0) + 2
                 # (names bound once in the whole module: a function-local of the same name disqualifies, which is the safe side)
+                # a constant imported from another module of the package (`from .tables import _ON_GRAIN`) is that module's constant
+                self._mconsts[file] = out          # (cycle guard: a module being resolved exposes what it has so far)
+                import posixpath
+                for alias, (modname, name) in self.pkg.imports.get(file, {}).items():
+                    if name is None or not modname.startswith(".") or count.get(alias):
+                        continue
+                    level = len(modname) - len(modname.lstrip("."))
+                    base = posixpath.dirname(file)
+                    for _ in range(level - 1):
+                        base = posixpath.dirname(base)
+                    rel = modname.lstrip(".").replace(".", "/")
+                    for cand in ([posixpath.join(base, rel + ".py"), posixpath.join(base, rel, "__init__.py")] if rel else [posixpath.join(base, "__init__.py")]):
+                        if cand in self.pkg.modules and cand != file:
+                            other = self.module_consts(cand)
+                            if name in other:
+                                out[alias] = other[name]
+                            break
                 for st in mod.body:
                     if isinstance(st, ast.Assign) and len(st.targets) == 1 and isinstance(st.targets[0], ast.Name) and count.get(st.targets[0].id) == 1 \
                             and not isinstance(st.value, (ast.Name, ast.Attribute)) and _literal_like(st.value):
